@@ -198,3 +198,33 @@ Example ex_HandleRequires_source :
   let w := {| w_require := false; w_default := false; w_optional := false; w_disallow_unknown := false |} in
   HandleRequires_marked false false false 1 1 1 (hr_f p f) = (Out_fall, 1, [(Eff_FieldById, [65]); (Eff_handler, [])]) /\ rule p w f = AWriteDefault.
 Proof. split; reflexivity. Qed.
+
+(* (G3) thrift/binary.go WriteEmpty from the source (gen/Gen_thriftempty.v): the "zero value" the rule's AWriteZero stands for.
+   For every type the models fill (ThriftCut.zero_of t = Some z) the call sequence of WriteEmpty, read through the lower generated levels
+   (WriteListBegin / WriteMapBegin / WriteFieldStop / WriteBool of gen/Gen_thriftbin.v, gen/Gen_thriftends.v), writes no error and exactly
+   ThriftWire.encode z; every other type byte is an error with nothing written. *)
+From DG Require Gen_thriftempty Gen_thriftends Gen_thriftbin ThriftCut GenThriftemptyProofs.
+
+Theorem C16_WriteEmpty_source_writes_zero :
+  forall t z, ThriftCut.zero_of t = Some z -> 0 <= GenThriftemptyProofs.key_code t < 256 -> 0 <= GenThriftemptyProofs.elem_code t < 256 ->
+  fst (Gen_thriftempty.BinaryProtocol_WriteEmpty (GenThriftemptyProofs.desc_of_ty t) 0 0 0 0 0 0 0 0 0 0) = 0 /\
+  empty_bytes (snd (Gen_thriftempty.BinaryProtocol_WriteEmpty (GenThriftemptyProofs.desc_of_ty t) 0 0 0 0 0 0 0 0 0 0)) = encode z.
+Proof. exact GenThriftemptyProofs.WriteEmpty_writes_zero. Qed.
+Print Assumptions C16_WriteEmpty_source_writes_zero.
+
+Theorem C16_WriteEmpty_source_invalid_type :
+  forall typ key elem, ~ In typ [2; 3; 6; 8; 10; 4; 11; 15; 14; 13; 12] -> gen_write_empty typ key elem = (GoSem.Err_NewError, []).
+Proof. exact GenThriftemptyProofs.WriteEmpty_invalid. Qed.
+Print Assumptions C16_WriteEmpty_source_invalid_type.
+
+Theorem C16_WriteEmpty_source_layers :
+  (forall t n, 0 <= t < 256 ->
+     empty_eff_bytes (Gen_thriftempty.Eff_WriteListBegin, [t; n]) = writes_bytes [] (snd (Gen_thriftbin.BinaryProtocol_WriteListBegin t n 0 0))) /\
+  (forall k v n, 0 <= k < 256 -> 0 <= v < 256 ->
+     empty_eff_bytes (Gen_thriftempty.Eff_WriteMapBegin, [k; v; n]) = writes_bytes [] (snd (Gen_thriftbin.BinaryProtocol_WriteMapBegin k v n 0 0 0))) /\
+  (Gen_thriftends.BinaryProtocol_WriteStructEnd 0 = (0, [(Gen_thriftends.Eff_WriteFieldStop, [])]) /\
+   empty_eff_bytes (Gen_thriftempty.Eff_WriteStructEnd, []) = writes_bytes [] (snd (Gen_thriftbin.BinaryProtocol_WriteFieldStop 0))) /\
+  (forall b, Gen_thriftends.BinaryProtocol_WriteBool b 0 0 = (0, [(Gen_thriftends.Eff_WriteByte, [Z.b2z b])])) /\
+  Gen_thriftends.BinaryProtocol_WriteListEnd = 0 /\ Gen_thriftends.BinaryProtocol_WriteMapEnd = 0.
+Proof. exact GenThriftemptyProofs.WriteEmpty_calls_layered. Qed.
+Print Assumptions C16_WriteEmpty_source_layers.
